@@ -87,7 +87,10 @@ func reduceItems[T any, V any](
 
 	if aggregateTarget.Limit != nil {
 		items = enumerable.Skip(items, aggregateTarget.Limit.Offset)
-		items = enumerable.Take(items, aggregateTarget.Limit.Limit)
+		// a limit of zero means no limit (offset only)
+		if aggregateTarget.Limit.Limit > 0 {
+			items = enumerable.Take(items, aggregateTarget.Limit.Limit)
+		}
 	}
 
 	var value = initialValue
